@@ -102,3 +102,136 @@ MUTANTS += [
          old="        new_npts = asig.npts / step  #", new="        new_npts = factor * asig.npts  #",
          why="reverts fix C14-F2: length fl(1/k)*npts falls below npts/k for k = 49, 98, ..."),
 ]
+
+# ---------------------------------------------------------------------------
+# window mutants (brief_midrange): a variant that only runs inside a window of sizes, each with its own arbitrary threshold.
+# The mid-range enumerations (mid-range-interp / mid-range-fourier / mid-range-history) were not told any of these numbers.
+
+_IA_GRID = ("    t_db = np.arange(new_npts) / factor\n"
+            "    acc_interp = np.interp(t_db, t_int, values)\n")
+_IA_TINT = "    t_int = np.arange(len(values))\n"
+_OBJ_CALL = "    acc_interp, dt_interp = interp_array_to_approx_dt(asig.values, asig.dt, target_dt=target_dt, even=even)\n"
+_RS_CALL = "    acc_interp = resample(asig.values, new_npts)\n"
+
+MUTANTS += [
+    dict(id="c14-win-interp-block-carry", prop="C14", file=_F, old=_IA_GRID,
+         new=("    t_db = np.arange(new_npts) / factor\n"
+              "    if len(values) > 20000:  # long records: interpolate block by block (keeps the temporaries small)\n"
+              "        n_new = len(t_db)\n"
+              "        acc_interp = np.empty(n_new)\n"
+              "        t_last = 0.0\n"
+              "        for b, i0 in enumerate(range(0, n_new, 6000)):\n"
+              "            i1 = min(i0 + 6000, n_new)\n"
+              "            if b < 2:\n"
+              "                t_blk = np.arange(i0, i1) / factor\n"
+              "            else:\n"
+              "                t_blk = t_last + np.arange(i1 - i0) / factor\n"
+              "            acc_interp[i0:i1] = np.interp(t_blk, t_int, values)\n"
+              "            t_last = t_blk[-1]\n"
+              "    else:\n"
+              "        acc_interp = np.interp(t_db, t_int, values)\n"),
+         why="window: records longer than 20 000 samples are interpolated in output blocks of 6000; from the THIRD block on the grid is "
+             "continued from the carried last instant without advancing one step (retained samples lost from output sample 12 000 on)"),
+    dict(id="c14-win-interp-float32-long", prop="C14", file=_F, old=_IA_TINT,
+         new=("    if len(values) > 250000:  # very long records: halve the memory of the working copy\n"
+              "        values = np.asarray(values, dtype=np.float32)\n" + _IA_TINT),
+         why="window: records longer than 250 000 samples are interpolated from a single-precision copy: original samples no longer "
+             "reappear unchanged"),
+    dict(id="c14-win-interp-drop-partial-block", prop="C14", file=_F, old=_IA_GRID,
+         new=("    t_db = np.arange(new_npts) / factor\n"
+              "    if len(values) > 70000:\n"
+              "        acc_interp = np.zeros(len(t_db))\n"
+              "        for b in range(len(t_db) // 4096):\n"
+              "            sl = slice(b * 4096, (b + 1) * 4096)\n"
+              "            acc_interp[sl] = np.interp(t_db[sl], t_int, values)\n"
+              "    else:\n"
+              "        acc_interp = np.interp(t_db, t_int, values)\n"),
+         why="window: for records longer than 70 000 samples the output is filled in whole blocks of 4096; the last partial block stays zero"),
+    dict(id="c14-win-interp-refine-budget", prop="C14", file=_F,
+         old="        factor = int(np.ceil(factor))\n    else:\n        factor = 1 / np.floor(1 / factor)\n",
+         new=("        factor = int(np.ceil(factor))\n"
+              "        if factor * len(values) > 1500000:  # budget on the size of the refined record\n"
+              "            factor = max(1, int(1500000 // len(values)))\n"
+              "    else:\n        factor = 1 / np.floor(1 / factor)\n"),
+         why="window on a product: the refinement factor is capped when factor*npts exceeds 1.5e6 samples, the returned step then "
+             "exceeds the target"),
+    dict(id="c14-win-interp-grid-cache-no-even", prop="C14", file=_F, old=_IA_GRID,
+         new=("    if 5000 <= len(values) <= 150000:  # the grid of a mid-size record is kept for the next call\n"
+              "        key = (len(values), float(factor))\n"
+              "        cache = globals().setdefault('_GRID_CACHE', {})\n"
+              "        if key not in cache:\n"
+              "            cache.clear()\n"
+              "            cache[key] = np.arange(new_npts) / factor\n"
+              "        t_db = cache[key]\n"
+              "    else:\n"
+              "        t_db = np.arange(new_npts) / factor\n"
+              "    acc_interp = np.interp(t_db, t_int, values)\n"),
+         why="stale cache kept only for mid-size records (5 000..150 000 samples): the key forgets `even`, so a second call with the "
+             "other value of `even` gets the grid (and length) of the first"),
+    dict(id="c14-win-obj-even-forced", prop="C14", file=_F, old=_OBJ_CALL,
+         new=("    if asig.npts > 7000 and target_dt < asig.dt:\n"
+              "        even = True  # long refined records go to the FFT afterwards\n" + _OBJ_CALL),
+         why="window + option interaction: the object variant forces an even length for records longer than 7000 samples that are "
+             "refined; differs from the array level only for even=False with an odd product k*npts"),
+    dict(id="c14-win-resample-halves", prop="C14", file=_F, old=_RS_CALL,
+         new=("    if asig.npts > 40000 and asig.npts % 2 == 0 and new_npts % 2 == 0:\n"
+              "        h = asig.npts // 2  # long records: two transforms of half the length\n"
+              "        acc_interp = np.concatenate([resample(asig.values[:h], new_npts // 2), resample(asig.values[h:], new_npts // 2)])\n"
+              "    else:\n"
+              "        acc_interp = resample(asig.values, new_npts)\n"),
+         why="window: records longer than 40 000 samples are Fourier-resampled in two halves, each treated as periodic on its own: "
+             "the band-limited periodic signal is no longer reproduced near the seams"),
+    dict(id="c14-win-resample-float32-big", prop="C14", file=_F, old=_RS_CALL,
+         new=("    if max(asig.npts, new_npts) > 300000:  # big transforms in single precision\n"
+              "        acc_interp = resample(np.asarray(asig.values, dtype=np.float32), new_npts).astype(float)\n"
+              "    else:\n"
+              "        acc_interp = resample(asig.values, new_npts)\n"),
+         why="window: transforms of more than 300 000 points (input or output) run in single precision (error 1e-7 of the amplitude)"),
+    dict(id="c14-win-resample-pad-pow2", prop="C14", file=_F, old=_RS_CALL,
+         new=("    n2 = 1 << int(asig.npts - 1).bit_length()\n"
+              "    if asig.npts > 5000 and n2 != asig.npts and new_npts * n2 % asig.npts == 0:\n"
+              "        padded = np.zeros(n2)\n"
+              "        padded[:asig.npts] = asig.values\n"
+              "        acc_interp = resample(padded, new_npts * n2 // asig.npts)[:new_npts]\n"
+              "    else:\n"
+              "        acc_interp = resample(asig.values, new_npts)\n"),
+         why="window: records longer than 5000 samples are zero-padded to a power of two when the padded output length is whole "
+             "(refinement / unchanged step and some decimations), resampled at the same rate and cut back: invisible on a record "
+             "with a quiet end, wrong for the periodic band-limited signal the statement promises to reproduce"),
+    dict(id="c14-win-resample-band-windowed", prop="C14", file=_F, old=_RS_CALL,
+         new=("    if 25000 <= asig.npts < 40000:\n"
+              "        acc_interp = resample(asig.values, new_npts, window=('tukey', 0.02))\n"
+              "    else:\n"
+              "        acc_interp = resample(asig.values, new_npts)\n"),
+         why="window with both ends (25 000 <= npts < 40 000, less than an octave): a slightly tapered spectral window is applied, "
+             "components near the top of the band are attenuated"),
+    dict(id="c14-win-interp-decimate-block-mean", prop="C14", file=_F, old=_IA_GRID,
+         new=("    t_db = np.arange(new_npts) / factor\n"
+              "    if factor < 1 and len(t_db) > 9000:  # long decimated records: average each group of k samples against aliasing\n"
+              "        k_dec = int(round(1 / factor))\n"
+              "        n_full = min(len(t_db), len(values) // k_dec)\n"
+              "        acc_interp = np.interp(t_db, t_int, values)\n"
+              "        acc_interp[:n_full] = np.asarray(values[:n_full * k_dec], dtype=float).reshape(n_full, k_dec).mean(axis=1)\n"
+              "    else:\n"
+              "        acc_interp = np.interp(t_db, t_int, values)\n"),
+         why="window on the OUTPUT length of a decimation (more than 9000 samples after decimating): group means instead of every "
+             "k-th sample, the output is no longer a subsequence of the input"),
+    # behaviour-preserving window variants: the new clauses must stay quiet on a correct refactoring
+    dict(id="c14-win-interp-blocked-correct", prop="C14", file=_F, old=_IA_GRID, expect="survive",
+         new=("    t_db = np.arange(new_npts) / factor\n"
+              "    if len(values) > 12000:\n"
+              "        acc_interp = np.empty(len(t_db))\n"
+              "        for i0 in range(0, len(t_db), 5000):\n"
+              "            acc_interp[i0:i0 + 5000] = np.interp(t_db[i0:i0 + 5000], t_int, values)\n"
+              "    else:\n"
+              "        acc_interp = np.interp(t_db, t_int, values)\n"),
+         why="a CORRECT blocked interpolation for records longer than 12 000 samples (same grid, same values): no alarm expected"),
+    dict(id="c14-win-resample-decimate-by-slicing", prop="C14", file=_F, old=_RS_CALL, expect="survive",
+         new=("    if factor < 1 and asig.npts > 9000 and len(asig.values[::int(round(1 / factor))]) >= new_npts:\n"
+              "        acc_interp = np.array(asig.values[::int(round(1 / factor))][:new_npts], dtype=float)\n"
+              "    else:\n"
+              "        acc_interp = resample(asig.values, new_npts)\n"),
+         why="long records are decimated by taking every k-th sample: for a signal band-limited below the new Nyquist frequency "
+             "these ARE its values at the instants i*new_dt, so the statement holds (it even holds where C14-KF1 is open): no alarm "
+             "expected"),
+]
